@@ -30,6 +30,7 @@ func checkC14(ctx *Ctx, r *Report) {
 	c14Templates(ctx, r, p)
 	c14ConverterNames(ctx, r)
 	c14GuardsAndTypes(ctx, r)
+	c14ThirdRound(ctx, r)
 }
 
 func c14FreshGenerator(ctx *Ctx, r *Report) {
@@ -497,4 +498,99 @@ func c14GuardsAndTypes(ctx *Ctx, r *Report) {
 	}
 	r.Count("direct mappings on assignment paths", k)
 	r.Floor("direct mappings on assignment paths", 1)
+}
+
+// c14ThirdRound: (a) the nil guards of an assignment path: one `!= nil` guard per nullable element, outermost first —
+// pathNotNullGuards must append inside a loop over every element of the path and not leave the loop early (a guard on the
+// innermost element alone dereferences the outer ones); (b) convertOption and mappingForOption must agree on which
+// assignments of an option are still to be converted: both filter option.Assignments by generatedPaths before deciding
+// (the repeat / append form is chosen from the first assignment that is left).
+func c14ThirdRound(ctx *Ctx, r *Report) {
+	p := ctx.Pkg("internal/languages")
+	if p == nil {
+		return
+	}
+	info := p.TypesInfo
+	// (a)
+	if fn := ctx.LookupMethod("internal/languages", "ConverterGenerator", "pathNotNullGuards"); fn != nil {
+		fd, _ := ctx.DeclOf(fn)
+		var pathParam types.Object
+		for _, f := range fd.Type.Params.List {
+			for _, nm := range f.Names {
+				if nm.Name == "path" {
+					pathParam = info.Defs[nm]
+				}
+			}
+		}
+		why := "no loop over the elements of the path"
+		ast.Inspect(fd.Body, func(m ast.Node) bool {
+			rs, ok := m.(*ast.RangeStmt)
+			if !ok {
+				return true
+			}
+			if id, ok := ast.Unparen(rs.X).(*ast.Ident); !ok || objOf(info, id) != pathParam {
+				return true
+			}
+			why = ""
+			appends := false
+			ast.Inspect(rs.Body, func(q ast.Node) bool {
+				switch x := q.(type) {
+				case *ast.ReturnStmt:
+					why = "the loop returns as soon as it has found one nullable element"
+				case *ast.BranchStmt:
+					if x.Tok == token.BREAK {
+						why = "the loop stops at the first nullable element"
+					}
+				case *ast.CallExpr:
+					if isBuiltinCall(info, x, "append") {
+						appends = true
+					}
+				}
+				return true
+			})
+			if why == "" && !appends {
+				why = "the loop does not accumulate guards"
+			}
+			return true
+		})
+		r.Count("guard builders of the converter", 1)
+		r.Check(why == "", "traverse/guards-every-nullable-element", "ConverterGenerator.pathNotNullGuards", fd.Pos(), "one guard per nullable element of the path",
+			"pathNotNullGuards: "+why+": for a path crossing two optional elements (`inner?.label?`) the generated converter tests `input.Inner.Label != nil` without having tested `input.Inner` — nil pointer dereference on a value whose outer element is unset")
+	} else {
+		r.Undecided("anchor lost: ConverterGenerator.pathNotNullGuards")
+	}
+	// (b)
+	n := 0
+	for _, name := range []string{"convertOption", "mappingForOption"} {
+		fn := ctx.LookupMethod("internal/languages", "ConverterGenerator", name)
+		fd, _ := ctx.DeclOf(fn)
+		if fd == nil {
+			r.Undecided("anchor lost: ConverterGenerator.%s", name)
+			continue
+		}
+		filters := false
+		ast.Inspect(fd.Body, func(m ast.Node) bool {
+			c, ok := m.(*ast.CallExpr)
+			if !ok || len(c.Args) != 2 {
+				return true
+			}
+			if f := callee(info, c); f == nil || !funcIs(f, toolsPkgPath, "Filter") {
+				return true
+			}
+			if s, ok := ast.Unparen(c.Args[0]).(*ast.SelectorExpr); !ok || s.Sel.Name != "Assignments" {
+				return true
+			}
+			ast.Inspect(c.Args[1], func(q ast.Node) bool {
+				if s, ok := q.(*ast.SelectorExpr); ok && s.Sel.Name == "generatedPaths" {
+					filters = true
+				}
+				return true
+			})
+			return true
+		})
+		n++
+		r.Check(filters, "siblings/converted-assignments-filtered", "ConverterGenerator."+name, fd.Pos(), "decides on the assignments not yet converted (option.Assignments filtered by generatedPaths)",
+			"ConverterGenerator."+name+" no longer filters option.Assignments by generatedPaths while its sibling does: the form of the conversion (one call per list item or one call with the list) is chosen from an assignment that will not be converted — the emitted call does not match the option's signature")
+	}
+	r.Count("functions deciding on the assignments left to convert", n)
 }
